@@ -103,6 +103,12 @@ def make_domain(name):
 def make_x_sampler(sx, shared_domains=None):
     import torchphysics as tp
     S = tp.samplers
+    if sx["dom"] == "tring":
+        # geometry DERIVED from a (possibly shared) domain: the disc minus a hole whose radius moves with t
+        base = (shared_domains or {}).get("disc") or make_domain("disc")
+        dom = base - tp.domains.Circle(tp.spaces.R2("x"), [0.5, 0.5], lambda t: 0.1 + 0.05 * t)
+        cls = {"random": S.RandomUniformSampler, "grid": S.GridSampler, "lhs": S.LHSSampler}[sx["kind"]]
+        return cls(dom, n_points=sx["n"])
     dom = (shared_domains or {}).get(sx["dom"]) or make_domain(sx["dom"])
     if sx["dom"] == "pdisc":
         dom = dom(a=float(sx.get("a", 0.0)))       # partial evaluation of the (possibly shared) domain
@@ -525,6 +531,7 @@ def run_c14(case):
                 first_x = next(cs["sampler"]["x"] for cs in specs if (cs.get("sampler") or {}).get("share_x"))
                 shared["sampler_x"] = make_x_sampler(first_x, shared.get("domains"))
             user_dict_before = dict(shared["data_dict"]) if "data_dict" in shared else None
+            dom_state = {n_: sorted(d_.necessary_variables) for n_, d_ in (shared.get("domains") or {}).items()}
             builds = {}
             solo = {}
             for step, op in enumerate(case["history"]):
@@ -572,6 +579,12 @@ def run_c14(case):
                         if la2 != la:
                             out.append(viol("C14", "repeatable", "static-condition-loss-changes-without-optimisation", specs[i]["kind"],
                                             first=la, second=la2))
+                # (b') the user's domain objects still declare the same needs
+                for n_, d_ in (shared.get("domains") or {}).items():
+                    if sorted(d_.necessary_variables) != dom_state[n_]:
+                        out.append(viol("C14", "containers", "user-domain-object-modified", n_,
+                                        now=sorted(d_.necessary_variables), before=dom_state[n_]))
+                        dom_state[n_] = sorted(d_.necessary_variables)
                 # (b) user containers hold the same objects under the same keys
                 if user_dict_before is not None:
                     d = shared["data_dict"]
